@@ -1175,8 +1175,49 @@ def desc_calls(desc):
 # R-DOM helpers
 # --------------------------------------------------------------------------------------------
 
-def guards_dominating(prog, body, b):
-    """Every (switch_block, label, discr_description, info) whose labelled edge dominates block b."""
+def _flag_defs(body, l):
+    """For a bool local whose every definition is a constant: {True: [blocks], False: [blocks]} — provided no definition can be
+    followed by another one (so the value at a test identifies the definition that ran); else None."""
+    if l is None or l <= body.argc or body.local_ty(l) != "bool":
+        return None
+    ds = [d for d in body.defs().get(l, [])]
+    if len(ds) < 2:
+        return None
+    out = {True: [], False: []}
+    for d in ds:
+        if d[2] != "assign" or d[3]["pl"]["p"] or d[3]["rv"]["k"] != "use" or d[3]["rv"]["o"].get("k") != "const" or not isinstance(d[3]["rv"]["o"].get("v"), bool):
+            return None
+        out[d[3]["rv"]["o"]["v"]].append(d[0])
+    blocks = out[True] + out[False]
+    for x in blocks:
+        seen = body.reachable(body.succs(x))
+        if any(y in seen for y in blocks):
+            return None
+    return out
+
+
+def _flag_root(body, l):
+    """(flag local, negated) following copies and `!`."""
+    neg = False
+    for _ in range(8):
+        ds = body.defs().get(l, [])
+        if len(ds) != 1 or ds[0][2] != "assign" or ds[0][3]["pl"]["p"]:
+            break
+        rv = ds[0][3]["rv"]
+        if rv["k"] == "use" and op_local(rv["o"]) is not None and not rv["o"]["pl"]["p"]:
+            l = op_local(rv["o"])
+        elif rv["k"] == "un" and rv["op"] == "Not" and op_local(rv["o"]) is not None:
+            l = op_local(rv["o"])
+            neg = not neg
+        else:
+            break
+    return l, neg
+
+
+def guards_dominating(prog, body, b, _depth=0):
+    """Every (switch_block, label, discr_description, info) whose labelled edge dominates block b.
+    A test of a constant-assigned boolean (`let found = ..early returns true / false..`, an inlined predicate helper) also
+    contributes the guards of the one assignment that gives it the tested value."""
     out = []
     for s in range(len(body.blocks)):
         t = body.term(s)
@@ -1198,6 +1239,15 @@ def guards_dominating(prog, body, b):
                     d = describe(prog, body, t["discr"])
                 for lab in labels:
                     out.append((s, lab, d, info))
+                    if lab in ("true", "false") and _depth < 3:
+                        fl, neg = _flag_root(body, op_local(t["discr"]))
+                        fd = _flag_defs(body, fl)
+                        if fd is not None:
+                            val = (lab == "true") != neg
+                            if len(fd[val]) == 1:
+                                for g in guards_dominating(prog, body, fd[val][0], _depth + 1):
+                                    if g not in out:
+                                        out.append(g)
     return out
 
 
